@@ -51,13 +51,25 @@ def mods():
 
 
 _kappa = {}
+_dmax = {}
 
 
 def kappa_of(seq):
     r = _kappa.get(seq)
     if r is None:
         from localcider.sequenceParameters import SequenceParameters as SP
-        r = _kappa[seq] = SP(seq).get_kappa()
+        if len(seq) <= 10:
+            r = SP(seq).get_kappa()
+        else:
+            # longer inputs: delta-max (a function of the composition, C03) once per composition from a fresh object, then
+            # kappa of a fresh backend object that is handed that value (the constructor's documented second argument)
+            from localcider.backend.sequence import Sequence
+            key = "".join(sorted(seq))
+            dm = _dmax.get(key)
+            if dm is None:
+                dm = _dmax[key] = SP(seq).get_deltaMax()
+            r = Sequence(seq, dm).kappa()
+        _kappa[seq] = r
         if len(_kappa) > 200000:
             _kappa.clear()
     return r
@@ -493,6 +505,19 @@ def run(tier, seed, t0):
     for st_ in range(3 if tier == "quick" else 8):
         shards.append((slow, 0, base_seed, 90 + st_, 1500, None))
         shards.append((slow2, 0, base_seed, 95 + st_, 1500, None))
+    # bin walks: the same composition under every bin count 1..12 (edges at i/n), long base-tape runs; every proposal's bin is
+    # compared with the nearest mid-point of its true kappa - the closer a kappa lies to an edge, the more bin counts expose it
+    for comp in (("KKKEEGGG",) if tier == "quick" else ("KKKEEGGG", "KKEEGGG", "KKKEEEGG", "KKKKEEGGG")):
+        for nb in range(1, 13):
+            wcfg = dict(name="%s/%dbins[0,1]/p40/binwalk" % (comp, nb), seq=comp, nbins=nb, binmin=0, binmax=1, flatchk=40, flatcrit=0.2,
+                        conv=math.exp(0.6))
+            for st_ in range(2 if tier == "quick" else 4):
+                shards.append((wcfg, 0, base_seed, 120 + st_, 3000, None))
+    # a medium-size irregular input (22 residues, K/R and D/E mixed, 6 bins of width 0.1): dense kappa spectrum, cluster sizes >= 5
+    medcfg = dict(name="GSKRAEDKTRPQEELKNDSRKA/6bins[0,.6]/p30/medium", seq="GSKRAEDKTRPQEELKNDSRKA", nbins=6, binmin=0, binmax=0.6, flatchk=30,
+                  flatcrit=0.2, conv=math.exp(0.6))
+    for st_ in range(4 if tier == "quick" else 12):
+        shards.append((medcfg, 0, base_seed, 140 + st_, 2500, None))
     if tier == "thorough":
         shards.append((dict(longcfg, name="KKEEGG/2bins[0,1]/p25/4upd/long", seq="KKEEGG", nbins=2, flatchk=25, flatcrit=0.3, conv=math.exp(0.07)),
                        0, base_seed, 80, 6000, None))
@@ -515,7 +540,7 @@ def run(tier, seed, t0):
              "DOS/DOS_local/histogram_bins/glog/hlog/seqlog files. First 4 executions per shard and every violating one are replayed "
              "and their observation logs compared. Bin geometry alone (centres, range bins, range test) is additionally checked by "
              "construction for every (nbins<=10, binmin, binmax on a 0.05 grid) whose width divides [0,1]. Three (thorough: eight) long base-tape runs (1 bin, period 10, five f-updates, g > 10) exercise the log writers at values "
-             "that need more than four significant digits. One configuration runs the same "
+             "that need more than four significant digits. Bin walks: KKKEEGGG (thorough: 4 compositions) under every bin count 1..12, two (four) base tapes of 3000 choice points each; a 22-residue irregular input with 6 bins of width 0.1, 4 (12) base tapes of 2500 choice points. One configuration runs the same "
              "machine twice (the second run judged by a fresh reference machine); four same-composition sequences (KKEEGG, RRDDAS, KRDEGS, "
              "KKEEGG) are run one after another in a freshly imported package, in both orders. non-trivial = completed runs" % (
                  len(cfgs), "base tapes per deviation bound: %r" % acc_plan),
